@@ -91,6 +91,7 @@ type sessVariety struct {
 	Transport chipsim.Transport
 	MaxLe     int
 	DG13Size  int
+	SodOrder  string // "" = by seed (ascending / descending / shuffled) | swap-last-two | stripped-last | stripped-first
 	Seed      int64
 }
 
@@ -156,10 +157,39 @@ func personalise(c sessCfg, v sessVariety) (*perso.Passport, error) {
 			order = append(order, n)
 		}
 		sort.Ints(order)
-		switch v.Seed % 3 {
-		case 1:
+		special := 14
+		if c.Kind == "strip15" {
+			special = 15
+		}
+		move := func(front bool) {
+			var rest []int
+			found := false
+			for _, n := range order {
+				if n == special {
+					found = true
+				} else {
+					rest = append(rest, n)
+				}
+			}
+			if found && front {
+				order = append([]int{special}, rest...)
+			} else if found {
+				order = append(rest, special)
+			}
+		}
+		switch {
+		case v.SodOrder == "swap-last-two":
+			if n := len(order); n >= 2 {
+				order[n-1], order[n-2] = order[n-2], order[n-1]
+			}
+		case v.SodOrder == "stripped-last":
+			// ascending but for ONE entry: every other data group is where a search of an ordered list looks for it
+			move(false)
+		case v.SodOrder == "stripped-first":
+			move(true)
+		case v.Seed%3 == 1:
 			sort.Sort(sort.Reverse(sort.IntSlice(order)))
-		case 2:
+		case v.Seed%3 == 2:
 			rand.New(rand.NewSource(v.Seed)).Shuffle(len(order), func(i, j int) { order[i], order[j] = order[j], order[i] })
 		}
 		s.DGOrder = order
@@ -261,6 +291,8 @@ type sessOutcome struct {
 	chipAuth                 string
 	truth                    chipsim.Truth
 	exchanges                int
+	plainData                []int // per exchange: octets of response data if the exchange was unprotected, else 0
+	unauthenticatedFlip      bool  // set by C11: a bit of an unprotected response was flipped under an unchanged status
 	phases                   []reader.Status
 	phaseAt                  []int
 	docEx                    *document.DocumentEx
@@ -279,7 +311,8 @@ func tri(present, ok bool) string {
 
 type faultSpec struct {
 	At   int    // exchange index
-	Kind string // empty | one | truncated | garbled | oversized | status | naked
+	Kind string // empty | one | truncated | garbled | oversized | status | naked | notfound | invalidated | flip
+	Pos  int    // flip: octet of the response data whose bit is flipped (modulo the data length)
 }
 
 func applyFault(kind string, g []byte, rnd *rand.Rand) []byte {
@@ -331,7 +364,18 @@ func runSession(p *perso.Passport, o sessOpt, maxLe int, faults []faultSpec, aaC
 		l.Script = func(idx int, cmd []byte, ll *link.Link) link.Action {
 			for _, f := range faults {
 				if f.At == idx {
-					kind := f.Kind
+					kind, pos := f.Kind, f.Pos
+					if kind == "flip" {
+						// one bit of the response DATA changes, length and status stay (a transmission error the link's CRC missed)
+						return link.Action{Name: "fault:flip", Respond: func(g []byte, ll *link.Link) []byte {
+							if len(g) <= 2 {
+								return g
+							}
+							out := append([]byte{}, g...)
+							out[pos%(len(g)-2)] ^= 1 << uint(rnd.Intn(8))
+							return out
+						}}
+					}
 					return link.Action{Name: "fault:" + kind, Respond: func(g []byte, ll *link.Link) []byte { return applyFault(kind, g, rnd) }}
 				}
 			}
@@ -392,6 +436,13 @@ func runSession(p *perso.Passport, o sessOpt, maxLe int, faults []faultSpec, aaC
 	out.dur = time.Since(t0)
 	out.truth = chip.Truth()
 	out.exchanges = len(l.Exchanges())
+	for _, ex := range l.Exchanges() {
+		n := 0
+		if len(ex.Cmd) > 0 && ex.Cmd[0]&0x0C == 0 && len(ex.Resp) > 2 {
+			n = len(ex.Resp) - 2 // unprotected exchange carrying data
+		}
+		out.plainData = append(out.plainData, n)
+	}
 	out.phases, out.phaseAt = ph.phases, ph.atEx
 	out.docEx = docEx
 	out.filesEqual = true
@@ -496,7 +547,7 @@ func safetyViolations(c *core.Ctx, prefix, caseName string, p *perso.Passport, o
 		c.Violation(prefix+":read-does-not-terminate", fmt.Sprintf("%s: %s", caseName, o.err), rp)
 		return
 	}
-	if !o.filesEqual {
+	if !o.filesEqual && !(o.unauthenticatedFlip && o.badFile == "EF.CardAccess") {
 		c.Violation(prefix+":file-differs-from-chip:"+o.badFile, fmt.Sprintf("%s: %s in the returned document differs from the chip's file", caseName, o.badFile), rp)
 	}
 	t := o.truth
@@ -681,6 +732,24 @@ func c02E2E(c *core.Ctx) {
 		v.MaxLe = 256
 		jobs = append(jobs, job{i, v})
 	}
+	// a withheld data group whose hash-list entry is the ONLY one out of ascending order (first, last, swapped with its
+	// neighbour): every other entry is found by whatever search, the withheld one must be found too
+	nStrip := 0
+	for i, cc := range cfgs {
+		if cc.Kind != "strip14" && cc.Kind != "strip15" {
+			continue
+		}
+		nStrip++
+		if !c.Thorough() && (nStrip+int(c.Seed))%9 != 0 {
+			continue
+		}
+		for _, ord := range []string{"swap-last-two", "stripped-last", "stripped-first"} {
+			v := randomVariety(c.Rand)
+			v.Transport = chipsim.Transport{ExtendedLength: true, AllowOversizeShortResponse: true, LengthErrorKeepsSession: true}
+			v.MaxLe, v.SodOrder = 256, ord
+			jobs = append(jobs, job{i, v})
+		}
+	}
 	core.ParallelFor(len(jobs), func(ji int) {
 		j := jobs[ji]
 		cc, oo, ee := cfgs[j.i], opts[j.i], exps[j.i]
@@ -688,7 +757,7 @@ func c02E2E(c *core.Ctx) {
 		if err != nil {
 			core.Infra("personalise(%v): %v", cc, err)
 		}
-		name := fmt.Sprintf("e2e %s | %s", cc, oo)
+		name := fmt.Sprintf("e2e %s | %s | sod-order=%s", cc, oo, j.v.SodOrder)
 		o := runSession(p, oo, j.v.MaxLe, nil, nil, j.v.Seed)
 		c.Case(name+fmt.Sprint(j.v.Seed), true)
 		rp := map[string]any{"config": cc, "options": oo, "expected": ee,
@@ -740,10 +809,11 @@ func c02E2E(c *core.Ctx) {
 func C11(c *core.Ctx) {
 	c.Level = "fault_enumeration"
 	c.Rule = "one case per (chip configuration, exchange index k of the fault-free read, fault kind) - every k and every kind - plus seeded multi-fault scripts; non-trivial = all; distinct by configuration + k + kind"
-	c.Assume("'garbled' replaces the whole response including its status bytes; a payload change under an unchanged 9000 on an UNPROTECTED exchange (EF.CardAccess before access control) is undetectable by any terminal and is not asserted")
+	c.Assume("'garbled' replaces the whole response including its status bytes; 'flip' changes one bit of the data under an unchanged status. On the UNPROTECTED read of EF.CardAccess a flipped bit cannot be noticed when it happens; asserted for it (chips with DG14): the document is never marked trusted while its CardAccess differs from the chip's (comparison with DG14)")
 	c.MustTLC(core.TLCOpts{Module: "MC_Session", Cfg: "MC_Session.cfg"})
 
 	kinds := []string{"empty", "one", "truncated", "garbled", "oversized", "status", "naked", "notfound", "invalidated"}
+	// (+ "flip", generated separately below with its position)
 	base := []struct {
 		cfg sessCfg
 		opt sessOpt
@@ -752,6 +822,8 @@ func C11(c *core.Ctx) {
 		{sessCfg{"cam+bac", []int{2}, "ecdsa", true, true, "genuine"}, sessOpt{false, false, "can"}},
 		// no chip authentication after the data groups: the last exchanges of the session are file reads
 		{sessCfg{"bac", []int{11, 13}, "none", false, true, "genuine"}, sessOpt{false, false, "mrz"}},
+		// PACE with BAC as fall-back, MRZ password, DG14: a changed EF.CardAccess can end in a COMPLETED read over BAC
+		{sessCfg{"pace+bac", []int{11}, "none", true, true, "genuine"}, sessOpt{false, false, "mrz"}},
 	}
 	if c.Thorough() {
 		base = append(base, []struct {
@@ -794,14 +866,24 @@ func C11(c *core.Ctx) {
 		refs = append(refs, ff)
 		for k := 0; k < ff.exchanges; k++ {
 			for _, kind := range kinds {
-				jobs = append(jobs, job{bi, []faultSpec{{k, kind}}, c.Rand.Int63()})
+				jobs = append(jobs, job{bi, []faultSpec{{k, kind, 0}}, c.Rand.Int63()})
+			}
+		}
+		// one flipped bit: every exchange once, and EVERY octet of the unprotected data-bearing ones (EF.CardAccess is read
+		// before any session exists: only the comparison with DG14 stands between a changed byte and the verdict)
+		for k := 0; k < ff.exchanges; k++ {
+			jobs = append(jobs, job{bi, []faultSpec{{k, "flip", c.Rand.Intn(4096)}}, c.Rand.Int63()})
+			if b.cfg.Ca && k < len(ff.plainData) {
+				for pos := 0; pos < ff.plainData[k]; pos++ {
+					jobs = append(jobs, job{bi, []faultSpec{{k, "flip", pos}}, c.Rand.Int63()})
+				}
 			}
 		}
 		for m := 0; m < core.Pick(c, 150, 2000); m++ {
 			nf := 2 + c.Rand.Intn(3)
 			var fs []faultSpec
 			for q := 0; q < nf; q++ {
-				fs = append(fs, faultSpec{c.Rand.Intn(ff.exchanges), kinds[c.Rand.Intn(len(kinds))]})
+				fs = append(fs, faultSpec{c.Rand.Intn(ff.exchanges), kinds[c.Rand.Intn(len(kinds))], 0})
 			}
 			jobs = append(jobs, job{bi, fs, c.Rand.Int63()})
 		}
@@ -812,6 +894,13 @@ func C11(c *core.Ctx) {
 		j := jobs[ji]
 		b := base[j.b]
 		o := runSession(passports[j.b], b.opt, varieties[j.b].MaxLe, j.faults, nil, j.seed)
+		for _, f := range j.faults {
+			if f.Kind == "flip" {
+				// EF.CardAccess itself cannot be authenticated when it is read; what is asserted for it is the verdict:
+				// a document holding a CardAccess that differs from the chip's is never marked trusted (safetyViolations)
+				o.unauthenticatedFlip = true
+			}
+		}
 		name := fmt.Sprintf("%s | %s | faults=%v", b.cfg, b.opt, j.faults)
 		c.Case(name, true)
 		rp := map[string]any{"config": b.cfg, "options": b.opt, "faults": j.faults, "seed": j.seed,
